@@ -126,23 +126,35 @@ impl Axecutor {
             displacement,
             segment,
         } = o;
+        // With the address-size prefix (0x67) base and index are 32-bit registers and the
+        // effective address is truncated to 32 bits before a segment base is added
+        let is_32bit = |r: SupportedRegister| iced_x86::Register::from(r).is_gpr32();
+        let addr_size_32 = base.map_or(false, is_32bit) || index.map_or(false, is_32bit);
+        let read_addr_reg = |r: SupportedRegister, what: &str| {
+            if is_32bit(r) {
+                self.reg_read_32(r).expect(what)
+            } else {
+                self.reg_read_64(r).expect(what)
+            }
+        };
+
         let mut addr: u64 = 0;
         if let Some(base) = base {
-            addr = addr.wrapping_add(
-                self.reg_read_64(base)
-                    .expect("reading memory operand base register"),
-            );
+            addr = addr.wrapping_add(read_addr_reg(base, "reading memory operand base register"));
         }
         if let Some(index) = index {
             addr = addr.wrapping_add(
-                self.reg_read_64(index)
-                    .expect("reading memory operand index register")
+                read_addr_reg(index, "reading memory operand index register")
                     .wrapping_mul(scale as u64),
             );
         }
 
         // This overflow is explicitly allowed, as x86-64 encodes negative values as signed integers
         addr = addr.wrapping_add(displacement);
+
+        if addr_size_32 {
+            addr &= 0xffff_ffff;
+        }
 
         if let Some(reg) = segment {
             match reg {
